@@ -153,6 +153,24 @@ Theorem mutable_message_is_stable : forall sch h id ob, heap_ok sch h -> get_obj
                step sch h1 (OMutable (PMsg (o_mid ob) (Some id)) f) = (h1, PMsg m (Some q)).
 Proof. exact ReflectLaws.mutable_message_is_stable. Qed.
 
+(* ---- allocation -------------------------------------------------------------------------------------------------- *)
+(* new(T): a fresh object in which nothing is populated; no existing object changes *)
+Theorem new_message_is_empty : forall sch h mid,
+  let h' := h ++ [HObj (new_obj sch mid)] in
+  let E := PMsg mid (Some (length h)) in
+  step sch h (ONew mid) = (h', E) /\
+  (forall id o, get_obj h id = Some o -> get_obj h' id = Some o) /\
+  (forall f fd, field_of sch mid f = Some fd -> step sch h' (OHas E f) = (h', PBool false)) /\
+  step sch h' (ORange E) = (h', PRange []) /\
+  step sch h' (OIsValid E) = (h', PBool true).
+Proof. exact ReflectLaws.new_message_is_empty. Qed.
+
+(* NewField / NewElement / NewValue never touch an existing object *)
+Theorem new_values_are_fresh : forall sch h o,
+  match o with ONewField _ _ | OLNewElement _ | OMNewValue _ => True | _ => False end ->
+  forall id ob, get_obj h id = Some ob -> get_obj (fst (step sch h o)) id = Some ob.
+Proof. exact ReflectLaws.new_values_are_fresh. Qed.
+
 (* ---- non-vacuity: a concrete schema and history (the model computes) -------------------------------------------- *)
 (* message 0: x int32; oneof { a string; b message 0 }; r repeated int64; m map<string,int32>; c message 0 *)
 (* new; Set a := ""; Set b := fresh message; Clear a (not the member set: nothing happens); WhichOneof; Has a; Has b;
